@@ -431,7 +431,7 @@ def replay(script, var, tid, flips):
                 if ring_form == "dictbytes":
                     ring_form = "dictkey"
             elif w == "wrongreqmac":
-                rmac = bytes([rmac[0] ^ 0x01]) + rmac[1:]
+                rmac = (bytes([rmac[0] ^ 0x01]) + rmac[1:]) if rmac else b"\x55" * 16
                 rec["rmac"] = list(rmac)
             elif w == "noreqmac":
                 rmac = b""
